@@ -7,12 +7,22 @@ mod c01;
 mod c02;
 mod c03;
 mod c04;
+mod c05;
 mod c06;
+mod c07;
+mod c10;
+mod c11;
 mod c14;
+mod c15;
+mod c15_repro;
+mod c16;
 mod c18;
+mod c20;
+mod c20x;
 mod ids;
 mod programs;
 mod util;
+mod walfix_c10;
 
 fn main() {
     let args: Vec<String> = std::env::args().collect();
@@ -30,8 +40,19 @@ fn main() {
         "c03" => c03::run(&rest),
         "c03-keys" => c03::run_keys(&rest),
         "c04" => c04::run(&rest),
+        "c05" => c05::run(&rest),
         "c06" => c06::run(&rest),
+        "c07" => c07::run(&rest),
+        "c10" => c10::run(&rest),
+        "c11" => c11::run(&rest),
+        "c10-gap" => c10::run_gap(&rest),
+        "c10-mkcrash" => c10::run_mkcrash(&rest),
+        "c10-reopen" => c10::run_reopen(&rest),
         "c14-attr" => c14::run(&rest),
+        "c15" => c15::run(&rest),
+        "c15-repro" => c15_repro::run(&rest),
+        "c20" => c20::run(&rest),
+        "c16" => c16::run(&rest),
         "c18" => c18::run(&rest),
         _ => {
             eprintln!("usage: echo-verif <ids|c04|...> args");
